@@ -46,12 +46,24 @@ func (s *Session) ExecQuery(q string) error {
 		fmt.Printf("created database %s\n\r", stmt.Name)
 		return nil
 	case sql.UseStatement:
-		var err error
-		s.CurDB = stmt.DBName
-		s.RelationService, err = storage.OpenRelation(stmt.DBName, true)
+		if s.RelationService != nil && strings.EqualFold(s.CurDB, stmt.DBName) {
+			// already selected, keep using the open store
+			fmt.Printf("selected database %s\n\r", stmt.DBName)
+			return nil
+		}
+		rs, err := storage.OpenRelation(stmt.DBName, true)
 		if err != nil {
 			return err
 		}
+		if s.RelationService != nil {
+			// flush and release the previously selected database
+			if err := s.RelationService.Close(); err != nil {
+				rs.Close()
+				return err
+			}
+		}
+		s.CurDB = stmt.DBName
+		s.RelationService = rs
 		fmt.Printf("selected database %s\n\r", stmt.DBName)
 		return nil
 	case sql.ShowDatabase:
